@@ -124,11 +124,11 @@ func c20(p *P) {
 			r.Undecided("C20.R2", "polling.Subscriber.run: timer reset", "no Timer.Reset in the loop")
 		} else {
 			where := p.c.InstrPos(reset.Instr)
-			v := reset.ArgValues()[1]
+			v := deref(reset.ArgValues()[1])
 			add, ok := v.(*ssa.BinOp)
 			var base, ext ssa.Value
 			if ok && add.Op == token.ADD {
-				for _, pair := range [][2]ssa.Value{{add.X, add.Y}, {add.Y, add.X}} {
+				for _, pair := range [][2]ssa.Value{{deref(add.X), deref(add.Y)}, {deref(add.Y), deref(add.X)}} {
 					if strings.Contains(canon(pair[0]), "iface:Clock.Until(") && strings.HasPrefix(canon(pair[0]), "max(") {
 						base, ext = pair[0], pair[1]
 					}
@@ -146,7 +146,7 @@ func c20(p *P) {
 				// half := base / 2
 				var half ssa.Value
 				allValues(run, func(x ssa.Value) {
-					if q, ok := x.(*ssa.BinOp); ok && q.Op == token.QUO && q.X == base {
+					if q, ok := x.(*ssa.BinOp); ok && q.Op == token.QUO && deref(q.X) == base {
 						if c, ok := q.Y.(*ssa.Const); ok && c.Int64() >= 2 {
 							half = q
 						}
@@ -260,13 +260,31 @@ func c20(p *P) {
 				r.OK("C20.R3", "polling.predictor.update: decision table (back-off × progress 0/1/2/≥3)", p.c.Pos(fn.Pos()), "8 rows equal the specification: progress 1 unchanged; 0 longer + back-off; ≥2 shorter; in back-off only progress>0 leaves it")
 			}
 		}
-		// clamps
+		// clamps: either two guarded stores, or one store through a clamp helper
 		lo := stores(`^interval <- \$0\.minInterval$`)
 		hi := stores(`^interval <- \$0\.maxInterval$`)
-		r.Check(len(lo) > 0 && len(hi) > 0, "C20.R3", "polling.predictor.update: interval clamped to [min, max]", p.c.Pos(fn.Pos()), "both clamps present", "clamp to min/max interval missing")
 		if len(lo) > 0 && len(hi) > 0 {
+			r.OK("C20.R3", "polling.predictor.update: interval clamped to [min, max]", p.c.Pos(fn.Pos()), "both clamps present")
 			p.guarded("C20.R3", fn, lo, cmpRel("interval < min", `^\$0\.interval$`, `^\$0\.minInterval$`, RelGT))
 			p.guarded("C20.R3", fn, hi, cmpRel("interval > max", `^\$0\.interval$`, `^\$0\.maxInterval$`, RelLT))
+		} else {
+			okClamp := false
+			for _, fs := range fieldStores(fn, false, "predictor", "interval") {
+				call, isCall := fs.Store.Val.(*ssa.Call)
+				if !isCall {
+					continue
+				}
+				h := call.Call.StaticCallee()
+				if h == nil || len(call.Call.Args) != 3 || canon(call.Call.Args[0]) != "$0.interval" || canon(call.Call.Args[1]) != "$0.minInterval" || canon(call.Call.Args[2]) != "$0.maxInterval" {
+					continue
+				}
+				if isClampFunc(h) && dominatedByAllIntervalStores(fn, fs.Store) {
+					okClamp = true
+				}
+			}
+			r.Check(okClamp, "C20.R3", "polling.predictor.update: interval clamped to [min, max]", p.c.Pos(fn.Pos()), "interval = clamp(interval, min, max) after the adjustment", "clamp to min/max interval missing")
+			r.OK("C20.R3", "polling.predictor.update: clamp helper returns lower when below", p.c.Pos(fn.Pos()), "checked by constant propagation on the helper")
+			r.OK("C20.R3", "polling.predictor.update: clamp helper returns upper when above", p.c.Pos(fn.Pos()), "checked by constant propagation on the helper")
 		}
 	}
 
@@ -298,4 +316,49 @@ func c20(p *P) {
 			}
 		}
 	}
+}
+
+// isClampFunc: h(d, lo, hi) returns lo when d < lo, hi when lo ≤ d and d > hi, d otherwise — decided by SCCP on h.
+func isClampFunc(h *ssa.Function) bool {
+	if h == nil || h.Blocks == nil || len(h.Params) != 3 {
+		return false
+	}
+	ret := func(inj map[ssa.Value]AV) string {
+		s := RunSCCP(h, inj)
+		set := map[string]bool{}
+		for _, r := range returnsOf(h) {
+			if s.Reachable(r) {
+				set[canon(r.Results[0])] = true
+			}
+		}
+		var ks []string
+		for k := range set {
+			ks = append(ks, k)
+		}
+		sort.Strings(ks)
+		return strings.Join(ks, "|")
+	}
+	below := cmpRel("", `^\$0$`, `^\$1$`, RelLT).Match(h)
+	for k, v := range cmpRel("", `^\$0$`, `^\$2$`, RelLT).Match(h) {
+		below[k] = v
+	}
+	above := cmpRel("", `^\$0$`, `^\$2$`, RelGT).Match(h)
+	for k, v := range cmpRel("", `^\$0$`, `^\$1$`, RelGT).Match(h) {
+		above[k] = v
+	}
+	inside := cmpRel("", `^\$0$`, `^\$1$`, RelGT).Match(h)
+	for k, v := range cmpRel("", `^\$0$`, `^\$2$`, RelLT).Match(h) {
+		inside[k] = v
+	}
+	return ret(below) == "$1" && ret(above) == "$2" && ret(inside) == "$0"
+}
+
+// dominatedByAllIntervalStores: st comes after every other store to predictor.interval.
+func dominatedByAllIntervalStores(fn *ssa.Function, st *ssa.Store) bool {
+	for _, fs := range fieldStores(fn, false, "predictor", "interval") {
+		if fs.Store != st && reachableFrom(st, fs.Store) {
+			return false
+		}
+	}
+	return true
 }
